@@ -336,11 +336,16 @@ class ConvexPolygon(GeoBody):
 
     def hash_with_normal(self):
         """return the hash value considering the normal"""
+        # hash(self.plane) does not depend on the sign of the normal
+        n = self.plane.n
         return hash(
             (
                 "ConvexPolygon",
                 round(self._get_point_hash_sum(), SIG_FIGURES - 5),
-                hash(self.plane),
+                round(n[0], SIG_FIGURES),
+                round(n[1], SIG_FIGURES),
+                round(n[2], SIG_FIGURES),
+                round(n * self.plane.p.pv(), SIG_FIGURES),
             )
         )
 
